@@ -20,7 +20,7 @@ func init() {
 		assumptions: []string{
 			"filler contains no delimiter openers, starts and ends with a non-blank byte, is invariant under the filters applied around it (upper-case letters and digits) and is not placed inside tags or verbatim bodies",
 		},
-		quick: 36000, thorough: 150000, minQuick: 5000, minThorough: 50000,
+		quick: 36000, thorough: 500000, minQuick: 5000, minThorough: 50000,
 	}})
 }
 
